@@ -188,7 +188,26 @@ def run(facts, tier, ctx):
     # ---------------------------------------------------------------- R-JOIN
     rj = RuleResult("PAIR/R-JOIN", "after the workers are spawned, every return path of the par entry point joins the "
                     "worker handles")
-    join_blocks = performs(facts, entry, is_join, depth=2, _memo={})
+    # a join counts only if it joins a *worker* handle: JoinHandle<R> with R the worker closure's return type,
+    # and not a join performed inside the methods of a helper-thread owner (the hashing context's finaliser)
+    worker_ret = set((cb.raw.get("output") or "()") for (_b, _bi, cb) in R.workers)
+    helper_owner_types = set(wb.raw.get("impl_self") for (wb, _wbi, _wcb) in R.spawn_wrappers if wb.raw.get("impl_self"))
+    helper_joins = set()
+    for b in facts.body_list:
+        if b.raw.get("impl_self") in helper_owner_types:
+            for _bi, t in b.calls():
+                if is_join(t):
+                    helper_joins.add(id(t))
+
+    def worker_join(t):
+        if not is_join(t) or id(t) in helper_joins:
+            return False
+        g = (t.get("fn") or {}).get("gargs") or []
+        return bool(g) and g[0] in worker_ret
+
+    join_blocks = performs(facts, entry, worker_join, depth=2, _memo={})
+    if not join_blocks:
+        raise FactError("no join of a worker JoinHandle<%s> found in %s" % ("|".join(sorted(worker_ret)), entry.id))
     for s in sorted(starts):
         ok, path = mpt_after(entry, s, join_blocks, rets)
         sample = {"function": entry.id, "from": entry.loc(s, "term"),
@@ -307,6 +326,61 @@ def run(facts, tier, ctx):
                             dict(sample, verdict="FAIL", path=path_str(wcb, p)))
     rb.require_floor(1, "encode-queue pops in worker closures")
     out.append(rb)
+
+    # --------------------------------------------------------- R-WORKER-EXIT
+    # The feeder sends exactly one stop token per worker and keeps feeding until then: a worker that leaves its loop
+    # any other way (break / return on a failed frame) stops consuming blocks and its token, and the feeder
+    # eventually blocks forever with all buffers queued.
+    rw = RuleResult("PAIR/R-WORKER-EXIT", "a worker leaves its loop only on the stop-token (None) edge of the "
+                    "encode-queue pop")
+    for (wb, wbi, wcb) in R.workers:
+        none_edges = set()
+        for pb, t in wcb.calls():
+            if (t.get("fn") or {}).get("def") not in pop_ids:
+                continue
+            for sb_ in sorted(wcb.live):
+                st = wcb.term(sb_)
+                if st["k"] != "switch":
+                    continue
+                for o in wcb.origins(st["d"]):
+                    if o[0] == "rv" and o[3]["k"] == "discr":
+                        base = wcb.place_origins(o[3]["pl"])
+                        if any(x[0] == "call" and x[1] == pb for x in base):
+                            tgt0 = [tb for val, tb in st["vals"] if val == 0]
+                            none_edges.add((sb_, tgt0[0] if tgt0 else st["else"]))
+        if not none_edges:
+            raise FactError("cannot find the None edge of the encode-queue pop in %s" % wcb.id)
+        # reachability of a return with the None edges removed
+        seen = {0: None}
+        dq = [0]
+        bad = None
+        while dq and bad is None:
+            b0 = dq.pop(0)
+            if wcb.term(b0)["k"] == "ret":
+                bad = b0
+                break
+            for x in wcb.succ[b0]:
+                if (b0, x) in none_edges or x in seen:
+                    continue
+                seen[x] = b0
+                dq.append(x)
+        sample = {"worker": wcb.id, "none_edges": ["bb%d->bb%d" % e for e in sorted(none_edges)]}
+        if bad is None:
+            rw.ok(dict(sample, verdict="ok"))
+        else:
+            path = []
+            x = bad
+            while x is not None:
+                path.append(x)
+                x = seen[x]
+            path = path[::-1]
+            rw.fail(Finding("PAIR/R-WORKER-EXIT", wcb.id, "worker-exits-without-stop-token", 0,
+                            wcb.loc(path[-2] if len(path) > 1 else path[-1], "term"),
+                            "the worker can return without having received its stop token (it stops consuming blocks "
+                            "while the feeder still counts it as alive):\n%s" % path_str(wcb, path)),
+                    dict(sample, verdict="FAIL", path=path_str(wcb, path)))
+    rw.require_floor(1, "worker closures")
+    out.append(rw)
 
     # --------------------------------------------------------------- ERRDISC
     PASS = [r"Arc::<T", r"Mutex::<T>::new", r"Mutex::<T>::lock", r"Result::<T, E>::expect", r"Result::<T, E>::unwrap",
